@@ -45,6 +45,16 @@ class RecordingRegressor(RegressorMixin, BaseEstimator):
         return np.tile(100000.0 + 100 * k + np.arange(self.n_outputs_) - self.frac, (n, 1))
 
 
+def make_ts_recording_regressor():
+    """The recording regressor as a TIME-SERIES regressor of the library that is a scikit-learn regressor as well
+    (as the library's own forest regressor is): scitype inference must see the time-series regressor."""
+    from sktime.regression.base import BaseRegressor
+
+    class RecordingTSRegressor(RecordingRegressor, BaseRegressor):
+        pass
+    return RecordingTSRegressor
+
+
 def make_recording_forecaster():
     """Factory (imports sktime lazily): a forecaster deriving from the repo's own base
     classes that logs fit / update / predict with the time points and values it is
